@@ -68,7 +68,8 @@ def txt(c: t.Sequence[int]) -> str:
 # ---- value pools ---------------------------------------------------------------------------------
 U32S = [0, 1, 2, 255, 256, 361, 65535, 65536, (1 << 31) - 1, 1 << 31, P32 - 2, P32 - 1]
 TEXTS = ["", "A", "d", "domain.test", "SP800_108_CTR_HMAC", "DH", "ECDH_P256", "SHA512", "\U0001F600", "a\U00010000b",
-         "\U0010FFFF", "\uffff", "\ud7ff\ue000", "\xe9", "\u5b50\u57df.test", "x" * 40, "a\x00b", "\U0001F600" * 5]
+         "\U0010FFFF", "\uffff", "\ud7ff\ue000", "\xe9", "\u5b50\u57df.test", "x" * 40, "a\x00b", "\U0001F600" * 5,
+         "\ufeffdomain.test", "\ufffex", "\ufeff", "a\ufeffb"]       # UTF-16LE text may begin with U+FEFF / U+FFFE: characters, not byte order marks
 BLENS = [0, 1, 2, 3, 5, 7, 8, 9, 15, 16, 17, 31, 32, 33, 64]
 KLENS = [0, 1, 2, 3, 5, 8, 16, 32, 48, 66]
 LONGS = [-1, 0, 1, 31, 32, 361, (1 << 31) - 1, -(1 << 31), -2, 255, 256, -256, 65536]
